@@ -3,6 +3,7 @@ import GoDcp.Driver.Session
 import GoDcp.Driver.SessionMon
 import GoDcp.Driver.Api
 import GoDcp.Driver.Life
+import GoDcp.Driver.WaitRace
 
 open GoDcp.Driver
 
@@ -16,6 +17,7 @@ structure DState where
   life : GoDcp.Life.LSt := {}
   lmon : LMon := {}
   api : ApiSt := {}
+  wr : WR := {}
 
 /-- one protocol line: `OP[<TAB>REAL]` ↦ `MODEL<TAB>VERDICT` -/
 def handle (st : DState) (line : String) : DState × String :=
@@ -37,7 +39,7 @@ def handle (st : DState) (line : String) : DState × String :=
       let out := apiDecorate st.api (c :: args) out0
       let apiBefore := st.api
       let st := { st with api := apiAfterSessionOp st.api (c :: args) st.sess s' }
-      if c == "reset" then ({ st with sess := s', smon := {}, caseStart := {}, caseOps := [], sessStart := {}, sessOps := [], api := {} }, s!"{out}\t-") else
+      if c == "reset" then ({ st with sess := s', smon := {}, caseStart := {}, caseOps := [], sessStart := {}, sessOps := [], api := {}, wr := {} }, s!"{out}\t-") else
       if c == "cfg" then ({ st with sess := s', caseStart := s', caseOps := [] }, s!"{out}\t-") else
       -- histories for the known-finding classifiers: whole case (C01), current session (C05)
       let opO := sessionOrApiOp (c :: args)
@@ -57,6 +59,9 @@ def handle (st : DState) (line : String) : DState × String :=
     | none =>
     match lifeLine st.life st.lmon (c :: args) real with
     | some (l', m', out, v) => ({ st with life := l', lmon := m' }, s!"{out}\t{v}")
+    | none =>
+    match wrLine st.wr (c :: args) real with
+    | some (w', out, v) => ({ st with wr := w' }, s!"{out}\t{v}")
     | none =>
       match allHandlers.lookup c with
       | none => (st, "bad-op\t-")
